@@ -568,7 +568,14 @@ impl Compiler {
             } else {
                 let options = self.builder.regex.select(exclude_names);
                 let not_taken = self.builder.regex.not(options);
-                self.builder.regex.and(vec![regex, not_taken])
+                let regex = self.builder.regex.and(vec![regex, not_taken]);
+                if self.key_regex_is_empty(regex) {
+                    // every name matching the pattern is already listed in "properties":
+                    // a key lexeme that can never match would leave the text after
+                    // the next "," without any continuation
+                    continue;
+                }
+                regex
             };
 
             let name = self.builder.lexeme(regex);
@@ -585,7 +592,7 @@ impl Compiler {
             }
             Ok(property) => {
                 let name = if taken_name_ids.is_empty() {
-                    self.json_simple_string()?
+                    Some(self.json_simple_string()?)
                 } else {
                     let taken = self.builder.regex.select(taken_name_ids);
                     let not_taken = self.builder.regex.not(taken);
@@ -599,10 +606,17 @@ impl Compiler {
                     };
                     let valid = self.builder.regex.add_ast(valid_ast)?;
                     let valid_and_not_taken = self.builder.regex.and(vec![valid, not_taken]);
-                    self.builder.lexeme(valid_and_not_taken)
+                    if self.key_regex_is_empty(valid_and_not_taken) {
+                        // the patterns cover every possible key
+                        None
+                    } else {
+                        Some(self.builder.lexeme(valid_and_not_taken))
+                    }
                 };
-                let item = self.builder.join(&[name, colon, property]);
-                pattern_options.push(item);
+                if let Some(name) = name {
+                    let item = self.builder.join(&[name, colon, property]);
+                    pattern_options.push(item);
+                }
             }
         }
 
@@ -620,6 +634,17 @@ impl Compiler {
         }
 
         self.object_fields(&items)
+    }
+
+    /// True if no key at all matches the regex (false if that cannot be determined cheaply).
+    fn key_regex_is_empty(&mut self, regex: derivre::ExprRef) -> bool {
+        self.builder
+            .regex
+            .spec
+            .regex_builder
+            .to_regex_limited(regex, 10_000)
+            .map(|mut rx| rx.always_empty())
+            .unwrap_or(false)
     }
 
     fn object_fields(&mut self, items: &[(NodeRef, bool)]) -> Result<NodeRef> {
